@@ -163,3 +163,60 @@ Proof.
 Qed.
 
 End BlockProofs.
+
+(* ------------------------------------------------------------------ the 64-byte rule
+   With one hash function Hb on byte strings (double SHA-256), inner nodes hash 64 bytes:
+   H a b = Hb (enc a ++ enc b) with |enc x| = 32, and a txid is Hb (serialization without witness).
+   If Hb is injective, a transaction whose serialization is not 64 bytes long has a txid that is
+   not an inner-node value - the premise of the binding theorems. *)
+Section SixtyFour.
+Variable D : Type.
+Variable byte : Type.
+Variable Hb : list byte -> D.
+Variable enc : D -> list byte.
+Variable deq : D -> D -> bool.
+Variable zero : D.
+Hypothesis Hb_inj : forall x y, Hb x = Hb y -> x = y.
+Hypothesis enc_len : forall x, length (enc x) = 32%nat.
+Hypothesis enc_inj : forall x y, enc x = enc y -> x = y.
+Hypothesis deq_spec : forall a b, deq a b = true <-> a = b.
+
+Definition H64 (a b : D) : D := Hb (enc a ++ enc b).
+
+Lemma app_eq_len {A : Type} : forall (a c b d : list A), length a = length c -> a ++ b = c ++ d -> a = c /\ b = d.
+Proof.
+  induction a as [|x a IH]; intros [|y c] b d Hl E; try discriminate; [auto|].
+  cbn in E. inversion E as [[Ex Er]]. destruct (IH c b d ltac:(cbn in Hl; lia) Er) as [-> ->]. auto.
+Qed.
+
+Lemma H64_injective : forall a b c d, H64 a b = H64 c d -> a = c /\ b = d.
+Proof.
+  intros a b c d E. apply Hb_inj in E. apply app_eq_len in E; [|rewrite !enc_len; reflexivity].
+  destruct E as [E1 E2]. split; apply enc_inj; assumption.
+Qed.
+
+Lemma not_64_bytes_not_inner (ser : list byte) : length ser <> 64%nat -> ~ exists a b, Hb ser = H64 a b.
+Proof.
+  intros Hlen (a & b & E). apply Hb_inj in E. apply Hlen. rewrite E, app_length, !enc_len. reflexivity.
+Qed.
+
+(* binding stated on the transactions themselves *)
+Theorem merkle_binding_no_64_byte_tx : forall (txs1 txs2 : list (list byte)) r,
+  txs1 <> [] -> txs2 <> [] ->
+  (forall t, In t txs1 -> length t <> 64%nat) -> (forall t, In t txs2 -> length t <> 64%nat) ->
+  compute_merkle_root D deq H64 zero (map Hb txs1) = Some (r, false) ->
+  compute_merkle_root D deq H64 zero (map Hb txs2) = Some (r, false) ->
+  txs1 = txs2.
+Proof.
+  intros txs1 txs2 r N1 N2 L1 L2 E1 E2.
+  assert (Em : map Hb txs1 = map Hb txs2).
+  { apply (merkle_binding D deq H64 zero deq_spec H64_injective _ _ r); auto.
+    - intros E. apply map_eq_nil in E. contradiction.
+    - intros E. apply map_eq_nil in E. contradiction.
+    - intros x Hx. apply in_map_iff in Hx. destruct Hx as (t & <- & Ht). apply not_64_bytes_not_inner. auto.
+    - intros x Hx. apply in_map_iff in Hx. destruct Hx as (t & <- & Ht). apply not_64_bytes_not_inner. auto. }
+  clear -Em Hb_inj. revert txs2 Em. induction txs1 as [|a l IH]; intros [|b l2] Em; try discriminate; [reflexivity|].
+  cbn in Em. inversion Em as [[Ea El]]. f_equal; [apply Hb_inj; exact Ea | apply IH; exact El].
+Qed.
+
+End SixtyFour.
